@@ -30,7 +30,7 @@ TIERS = {
                              "PYGOPHERD-HTTPPROTO-ICONS"],
                      inner=["a", " ", "%", "?", "#", "|", "+", "&", "\"", "^", ":", "..", "%41", "URL:a", "a b 1", "x:y",
                             "text.gif", "wap", "GEMINI-QUERY"], kinds2=["file", "mbox", "dir"],
-                     deep=["{{", "}}", "{", "{^", "{ "],
+                     deep=["{{", "}}", "{^{", "{%{"],
                      views=["G", "GP", "GD", "SG", "SGP", "SGD", "H", "HS", "W", "M", "S"], hls=["default", "full"],
                      full_only_kinds=None, hi=[0xFF, 0xE9]),
 }
@@ -175,6 +175,9 @@ def report(chk, traces, tv):
 
 def main(chk, replay=None):
     from harness import c05_lib as L
+    # the string operators of Links.tla recurse once per character; long abstract strings (deep selectors, long search
+    # strings) need a deeper Java stack than TLC's worker threads get by default
+    os.environ.setdefault("JAVA_TOOL_OPTIONS", "-Xss512m")
     t = TIERS[chk.tier]
     k = L.Consts(hi_byte=t["hi"][0])
     # 1. design model, exhaustive within bounds; the cases it explored
